@@ -21,7 +21,19 @@ META = {
             "text": "Exploration: in every build of random histories (serial and random schedules) each banner is compared with what the event log says happened to that target.", "note": HIST_NOTE},
 }
 
+SCHED_NOTE = "trusted base: the cooperative scheduler shim (only yields where real threads can be preempted), the in-memory System model, the reference evaluator; schedules are sampled, not enumerated"
+META.update({
+    "C03": {"engine": "sched", "technique": "runtime monitor under a seeded cooperative scheduler (and free-running stress): online readiness check at every command start, hash check of every channel hand-off",
+            "text": "Exploration over schedules: the real build() runs on the in-memory System while a seeded scheduler (random walk / PCT / serial+preemptions) chooses the interleaving at every channel operation, thread start/finish and System call; monitors inside the System check readiness at command start and every ticket sent. Replayable by the choice list.", "note": SCHED_NOTE},
+    "C04": {"engine": "sched", "technique": "runtime monitor: verdict/error list vs the model's failing set, online 'cancelled rule must not run', independent rules correct; across schedules and follow-up histories",
+            "text": "Exploration over failure placements x schedules x follow-up histories, judged against the reference model's failing set.", "note": SCHED_NOTE},
+    "C05": {"engine": "sched", "technique": "runtime monitor: logical deadlock detection by the scheduler (no runnable thread), panic capture at thread/call boundaries, internal channel errors",
+            "text": "Exploration over graphs x failure placements x schedules for build and clean; a hang is decided logically, never by wall clock.", "note": SCHED_NOTE},
+    "C06": {"engine": "sched", "technique": "runtime monitor: confluence - same scenario under many schedules must give identical verdict and workspace bytes",
+            "text": "Exploration: each scenario's final build is run under 30 (300 thorough) schedules from one snapshot, biased to states where threads meet in the cache (cleaned byte-identical twins); outcomes compared.", "note": SCHED_NOTE},
+})
+
 NOT_APPLICABLE = [
     {"property_id": p, "reason": "check not built yet in this session (planned in DESIGN.md section 4); not claimed until its monitor exists"}
-    for p in ["C03", "C04", "C05", "C06", "C11", "C13", "C14", "C15", "C16", "C17", "C18", "C19"]
+    for p in ["C11", "C13", "C14", "C15", "C16", "C17", "C18", "C19"]
 ]
